@@ -11,6 +11,7 @@ mod s_eval;
 mod rng;
 mod s_c01;
 mod s_c02;
+mod s_c03;
 mod s_c04;
 mod s_c05;
 mod s_c06;
@@ -90,6 +91,7 @@ fn main() {
     match stream {
         "C01" => s_c01::run(&mut em, thorough, seed),
         "C02" => s_c02::run(&mut em, thorough, seed),
+        "C03" => s_c03::run(&mut em, thorough, seed),
         "C04" => s_c04::run(&mut em, thorough, seed),
         "C05" => s_c05::run(&mut em, thorough, seed),
         "C06" => s_c06::run(&mut em, thorough, seed),
